@@ -14,6 +14,9 @@ import EmsModel.Gen.Tables
 `exit <usage|os|command:<n>|command|uncaught|interrupt>` → `EXIT:<n> msg:<0|1>`
 `run <command> <-|step name> <failure>`       → `EXIT:<n> msg:<0|1> out:<0|1>`
 `steps <command>`                             → step names
+`classes <lo> <hi>`                           → `cp=d<val>` / `cp=s` for every digit / blank code point in [lo, hi), or `-`
+`cmdname <module name text>`                  → sub-command name as text
+`accepts <text>`                              → `0` | `1` (the text, in its entirety, is in the language of `bounds_re`)
 `digit <code point>`                          → value | `-`
 `space <code point>`                          → `0` | `1`
 `double <p/q>`                                → nearest binary64 as `p/q`
@@ -158,6 +161,27 @@ def step (line : String) : String :=
   | ["space", n] =>
     match parseNat? n with
     | some n => if h : n.isValidChar then b2s (isSpace (Char.ofNatAux n h)) else "BAD"
+    | none => "BAD"
+  | ["classes", lo, hi] =>
+    match parseNat? lo, parseNat? hi with
+    | some lo, some hi =>
+      let cps := (List.range (hi - lo)).map (· + lo)
+      let parts := cps.filterMap fun n =>
+        if h : n.isValidChar then
+          let c := Char.ofNatAux n h
+          match digitVal? c with
+          | some d => some s!"{n}=d{d}"
+          | none => if isSpace c then some s!"{n}=s" else none
+        else none
+      if parts.isEmpty then "-" else joinWith "," parts
+    | _, _ => "BAD"
+  | ["cmdname", t] =>
+    match parseText? t with
+    | some m => showText (commandName m)
+    | none => "BAD"
+  | ["accepts", t] =>
+    match parseText? t with
+    | some s => b2s (parseBounds s).isSome
     | none => "BAD"
   | ["double", r] =>
     match parseRat? r with
